@@ -6,7 +6,9 @@ Model: `PathsM` (`Model/Paths.lean`): Rust `Path::join` (an absolute path replac
 performs, `build::join_suffix` (strip the root of the suffix, keep everything else *textually*), and the OS's lexical
 resolution of `.` / `..`.  Tie: hook H6 (`SCCACHE_DIST_VERIF=paths:` inside the `sccache-dist` crate: the real
 `join_suffix` and `std::path`) + `modeld paths` on adversarial cwd / path pairs; `h_tc ids` for toolchain ids.
-What cannot be run here: bubblewrap / overlayfs (absent) — the sandboxed half of the property is out of reach; partial. -/
+The server's use of these paths: `resolve_inside` (fix 732ef31) — `confined`, `every_step_inside`, `refused_only_when_leaving`.
+Real build server: `tools/sys_c19.py` (real scheduler + `sccache-dist server` with its OverlayBuilder and a real overlay mount;
+only bubblewrap is replaced by a chroot stand-in, so namespace isolation itself stays out of reach — partial). -/
 
 namespace C19
 open PathsM
@@ -24,8 +26,36 @@ theorem confined_partial (target rest : Bytes)
 theorem stripped_suffix_is_relative (fuel : Nat) (s : Bytes) (h : s.length < fuel) : hasRoot (trimLeftFuel fuel s) = false :=
   PathsM.trimLeftFuel_noRoot fuel s h
 
-/-- F-C19-a (negative, kernel-checked, open): `..` components survive `join_suffix` —
-    build root `/srv/b/t`, cwd `/w`, output `../../etc/passwd` resolves to `/srv/b/etc/passwd`, outside the root -/
+/-- `confined_all` (the repaired server, fix 732ef31): for **every** client-supplied remainder — `..` components, empty and `.`
+    components, any bytes — whatever `resolve_inside` accepts is, by the kernel's lexical resolution, the build root followed
+    by the returned names: inside the root. (World without symbolic links; links are resolved by `canonicalize` and checked by
+    the same `starts_with(root)` test — trusted base: the kernel.) -/
+theorem confined_all (target rest : Bytes) (q : List Bytes)
+    (ht : target ≠ []) (hl : target.getLast? ≠ some slash) (hr : hasRoot rest = false)
+    (h : resolveInside rest = some q) :
+    resolve (pjoin target rest) = resolve target ++ q := PathsM.resolveInside_sound target rest q ht hl hr h
+
+/-- … and every **intermediate** directory of the walk is inside the root too: with `create_dirs` nothing is ever created
+    outside (`create_dir` is called on the current prefix only) -/
+theorem every_step_inside (target rest : Bytes) (q : List Bytes) (h : resolveInside rest = some q)
+    (cs₁ cs₂ : List Bytes) (hs : splitSlash rest = cs₁ ++ cs₂) :
+    resolve target <+: cs₁.foldl rstep (resolve target) := PathsM.resolveInside_steps_inside target rest q h cs₁ cs₂ hs
+
+/-- a refusal is never gratuitous: some prefix of the path really leaves the root (so ordinary `../sibling/x.o` outputs of a
+    deep enough cwd keep working) -/
+theorem refused_only_when_leaving (rest : Bytes) (base : List Bytes) (hb : base ≠ []) (h : resolveInside rest = none) :
+    ∃ cs₁ cs₂, splitSlash rest = cs₁ ++ cs₂ ∧ ¬ (base <+: cs₁.foldl rstep base) := by
+  have := PathsM.foldl_istep_refuses_only_escapes (splitSlash rest) [] base hb h
+  simpa using this
+
+/-- the request of F-C19-a is refused now, an ordinary `..` that stays inside is resolved -/
+theorem fixed_escape_refused :
+    resolveInside (suffixRest (pjoin [47, 119] [46, 46, 47, 46, 46, 47, 101, 116, 99, 47, 112, 97, 115, 115, 119, 100])) = none ∧
+    resolveInside (suffixRest (pjoin [47, 119, 47, 115] [46, 46, 47, 111, 46, 111])) = some [[119], [111, 46, 111]] := by decide
+
+/-- F-C19-a as it was on the pinned tree (kernel-checked): `..` components survive `join_suffix` alone —
+    build root `/srv/b/t`, cwd `/w`, output `../../etc/passwd` resolves to `/srv/b/etc/passwd`, outside the root.
+    The repaired server no longer hands this path to the file system (`fixed_escape_refused`). -/
 theorem escape_witness :
     confined [47, 115, 114, 118, 47, 98, 47, 116]
       (joinSuffix [47, 115, 114, 118, 47, 98, 47, 116] (pjoin [47, 119] [46, 46, 47, 46, 46, 47, 101, 116, 99, 47, 112, 97, 115, 115, 119, 100])) = false := by
